@@ -51,6 +51,7 @@ func expOf(lm uint, a *big.Int) *big.Int {
 }
 
 func genC01(g *Rng, tier string, emit func(Op)) {
+	attributeHashThresholdOps(g, "C01/attribute-hash-threshold", emit)
 	for _, o := range highIndexSplitOps(g, fixedKey("k1024a", false), "C01/split-at-high-index") {
 		emit(o)
 	}
